@@ -17,7 +17,7 @@ type zzRDA struct {
 	start  uint64
 	kind   []int // per relative height
 	blobs  [][][]byte
-	fails  []int // failures already served per height
+	fails  []int   // failures already served per height
 	errs   []error // which error a failing fetch returns, per height
 	idsLog []uint64
 	getLog []int
